@@ -121,6 +121,8 @@ def norm(t, keep_conv=False):
         return ("closure", t[1], tuple(norm(a, keep_conv) for a in t[2]))
     if k == "cast":
         return ("cast", t[1], norm(t[2], keep_conv))
+    if k == "nth":
+        return ("nth", norm(t[1], keep_conv), t[2])
     return t
 
 
